@@ -1,7 +1,7 @@
 (* C13 -- Every DocSet is one sorted sequence under any mix of advance and seek.
    Only statements, each closed by `exact <lemma>`, non-vacuity examples and refutation witnesses. *)
 From TV Require Import Base.Prelude Generated.Constants DocSet.Spec DocSet.Impl DocSet.Program
-  DocSet.Exclude DocSet.ReqOpt DocSet.Sum DocSet.Intersect DocSet.Union DocSet.Disjunction DocSet.Cases.
+  DocSet.Exclude DocSet.ReqOpt DocSet.Sum DocSet.Intersect DocSet.IntersectProofs DocSet.Union DocSet.Disjunction DocSet.Cases.
 Local Open Scope N_scope.
 
 (* For every implementation that satisfies the contract of Impl.v (state s represents the remaining
@@ -17,6 +17,16 @@ Theorem C13_terminated_sticky :
   forall (I : impl) strong R D, contract I strong R D ->
   forall prog s l, R s l -> doc I s = DOCSET_TERMINATED -> valid_prog l prog -> Forall obs_terminated (run I s prog).
 Proof. exact terminated_sticky. Qed.
+
+(* Programs that also contain seek_danger calls: the observations satisfy the relational specification
+   (Found iff member, and then doc() = target and the state is `seek target`; otherwise a lower bound in
+   (target, first member >= target]; after a miss only further seek_danger calls, targets not decreasing). *)
+Theorem C13_seek_danger_programs :
+  forall (I : impl) strong R D, contract I strong R D ->
+  forall (prog : list call) (s : st I) (l : list N) (dang : bool) (tau : N),
+    (if dang then D s tau l else R s l) -> valid_dprog strong l dang tau prog ->
+    spec_check l dang prog (run I s prog) = true.
+Proof. exact danger_program_sound. Qed.
 
 (* The sequence enumerated by plain advance is the represented list: strictly increasing, below DOCSET_TERMINATED. *)
 Theorem C13_sequence_is_sorted_list :
@@ -62,6 +72,36 @@ Proof.
   intros A B sa sb RA DA RB DB CA CB. split.
   - intros u ex lu les. exact (exclude_new_repr A B sa sb RA DA RB DB CA CB u ex lu les).
   - exact (exclude_contract A B sa sb RA DA RB DB CA CB).
+Qed.
+
+(* Intersection (>= 2 children of ANY implementation meeting the contract, each at any position):
+   go_to_first_doc -- the 'outer loop of Intersection::new / intersect_scorers / Intersection::seek -- terminates
+   within the fuel (sum of the children's sizes), leaves every child valid and aligned on the first common member,
+   and skips no common member. *)
+Theorem C13_go_to_first_doc :
+  forall (C : impl) strong RC DC, contract C strong RC DC ->
+  forall ds ls, Forall2 RC ds ls ->
+  exists c, go_to_first_doc C ds = (fst (go_to_first_doc C ds), false) /\ c <= DOCSET_TERMINATED /\
+    Forall2 RC (fst (go_to_first_doc C ds)) (map (ds_seek c) ls) /\
+    Forall (fun l => ds_doc (ds_seek c l) = c) ls /\
+    (forall x, common x ls -> c <= x).
+Proof. exact go_to_first_doc_ok. Qed.
+
+(* hence Intersection::new represents sem_inter of the children's lists, doc() is its head, and seek(t >= doc)
+   represents ds_seek t of it (aligned valid states AV; the leap-frog advance and the dense count are tied by runs) *)
+Theorem C13_compositional_intersection_new_seek :
+  forall (C : impl) strong RC DC, contract C strong RC DC ->
+  (forall l r o ll lr los dense, RC l ll -> RC r lr -> Forall2 RC o los ->
+     exists ls', AV C RC (i_new C l r o dense) ls' /\ sem_inter ls' = sem_inter (ll :: lr :: los)) /\
+  (forall s ls, AV C RC s ls -> i_doc C s = ds_doc (sem_inter ls)) /\
+  (forall s ls t, AV C RC s ls -> i_doc C s <= t -> t <= DOCSET_TERMINATED ->
+     exists ls', AV C RC (i_seek C t s) ls' /\ sem_inter ls' = ds_seek t (sem_inter ls)).
+Proof.
+  intros C strong RC DC CC. split; [|split].
+  - intros l r o ll lr los dense Hl Hr Ho.
+    destruct (inter_new_repr C strong RC DC CC l r o ll lr los dense Hl Hr Ho) as [ls' [H1 [H2 _]]]. exists ls'. tauto.
+  - exact (inter_doc_repr C strong RC DC CC).
+  - intros s ls t HA Hd Ht. destruct (inter_seek_repr C strong RC DC CC s ls t HA Hd Ht) as [ls' [H1 [H2 _]]]. exists ls'. tauto.
 Qed.
 
 (* RequiredOptionalScorer: as a document set it is the required child (any child meeting the contract; strength kept) *)
@@ -121,3 +161,118 @@ Proof. exists [CAdvance]. split; [exact I|vm_compute; discriminate]. Qed.
 Example C13_union_in_union_current_source :
   run_inter_luu F131_a F131_cs true false [CAdvance; CAdvance; CAdvance] = spec_run F131_sem [CAdvance; CAdvance; CAdvance].
 Proof. vm_compute. reflexivity. Qed.
+
+(* ===================== theorems added after the first build (deeper proofs) ===================== *)
+From TV Require Import DocSet.IntersectAdvanceProofs DocSet.UnionBits DocSet.UnionProofs DocSet.UnionWitness DocSet.DisjunctionProofs.
+(* ===== appended: Intersection (advance, seek, seek_danger) and BufferedUnionScorer ===== *)
+
+(* Intersection over ANY children meeting the contract meets the contract itself, with the children's strength
+   (leap-frog advance with seek_danger restarts, seek = go_to_first_doc, the intersection's own seek_danger;
+   sparse count path: R_i requires i_dense = false). *)
+Theorem C13_compositional_intersection :
+  forall (C : impl) strong RC DC, contract C strong RC DC ->
+  (forall l r o ll lr los, RC l ll -> RC r lr -> Forall2 RC o los ->
+     R_i C RC DC (i_new C l r o false) (sem_inter (ll :: lr :: los))) /\
+  contract (inter_impl C) strong (R_i C RC DC) (D_i C DC).
+Proof.
+  intros C strong RC DC CC. split.
+  - exact (inter_new_R C strong RC DC CC).
+  - exact (inter_contract C strong RC DC CC).
+Qed.
+
+Theorem C13_intersection_program_equivalence :
+  forall (C : impl) strong RC DC, contract C strong RC DC ->
+  forall l r o ll lr los prog, RC l ll -> RC r lr -> Forall2 RC o los ->
+  valid_prog (sem_inter (ll :: lr :: los)) prog ->
+  run (inter_impl C) (i_new C l r o false) prog = spec_run (sem_inter (ll :: lr :: los)) prog.
+Proof. exact inter_program_equivalence. Qed.
+
+(* nesting depth 2: an intersection of intersections of leaves, every valid program *)
+Theorem C13_intersection_nested_all_programs :
+  forall a b c d e f prog,
+  wf_docs a -> wf_docs b -> wf_docs c -> wf_docs d -> wf_docs e -> wf_docs f ->
+  valid_prog (sem_inter [sem_inter [a; b]; sem_inter [c; d; e]; sem_inter [f; a]]) prog ->
+  run (inter_impl (inter_impl vec_impl))
+      (i_new (inter_impl vec_impl)
+         (i_new vec_impl (vec_of a) (vec_of b) [] false)
+         (i_new vec_impl (vec_of c) (vec_of d) [vec_of e] false)
+         [i_new vec_impl (vec_of f) (vec_of a) [] false] false) prog
+  = spec_run (sem_inter [sem_inter [a; b]; sem_inter [c; d; e]; sem_inter [f; a]]) prog.
+Proof. exact inter_nested_all_programs. Qed.
+
+(* BufferedUnionScorer over ANY children meeting the contract: build represents sem_union of the children's lists
+   (invariant R_u of DESIGN §9), and doc / advance / seek (inside and outside the horizon) / fill_buffer /
+   fill_bitset_block / count_including_deleted keep it. *)
+Theorem C13_compositional_union :
+  forall (C : impl) strong RC DC, contract C strong RC DC ->
+  (forall ds lcs, Forall2 RC ds lcs -> R_u C RC (u_build C ds) (sem_union lcs)) /\
+  (forall s l, R_u C RC s l -> wf_docs l /\ u_doc C s = ds_doc l /\ u_ok C s = true /\ (length l <= u_size C s)%nat) /\
+  (forall s l, R_u C RC s l -> R_u C RC (u_advance C s) (ds_advance l)) /\
+  (forall s l t, R_u C RC s l -> u_doc C s <= t -> t <= DOCSET_TERMINATED -> R_u C RC (u_seek C t s) (ds_seek t l)) /\
+  (forall s l, R_u C RC s l ->
+     fst (u_fill_buffer C s) = fst (ds_fill_buffer l) /\ R_u C RC (snd (u_fill_buffer C s)) (snd (ds_fill_buffer l))) /\
+  (forall s l, R_u C RC s l -> fst (u_count C s) = ds_count l /\ u_ok C (snd (u_count C s)) = true).
+Proof.
+  intros C strong RC DC CC. split; [exact (union_build_repr C strong RC DC CC)|split; [|split; [|split; [|split]]]].
+  - intros s l HR. split; [exact (UnionProofs.H_wf C RC s l HR)|split; [exact (UnionProofs.H_doc C RC s l HR)|split]].
+    + exact (UnionProofs.H_ok C strong RC DC CC s l HR).
+    + exact (UnionProofs.H_size C strong RC DC CC s l HR).
+  - exact (UnionProofs.H_adv C strong RC DC CC).
+  - intros s l t HR Hd Ht. exact (UnionProofs.H_seek C strong RC DC CC t s l Ht HR Hd).
+  - exact (UnionProofs.H_fill_buffer C strong RC DC CC).
+  - exact (UnionProofs.H_count C strong RC DC CC).
+Qed.
+
+(* hence, for both shapes of seek_danger, every valid program on a union of ANY children is the list sem_union *)
+Theorem C13_union_program_equivalence :
+  forall (C : impl) strong RC DC, contract C strong RC DC ->
+  forall (g : bool) ds lcs prog, Forall2 RC ds lcs -> valid_prog (sem_union lcs) prog ->
+  run (union_impl_g C g) (u_build C ds) prog = spec_run (sem_union lcs) prog.
+Proof. exact union_sequence_is_sem_union. Qed.
+
+(* seek_danger in the shape of the current source (guard on the current document): over strong children that never
+   dangle (leaves, Exclude, every docset with the default seek_danger) the union meets the strong contract, so it
+   can be a child of Intersection / Exclude / another level *)
+Theorem C13_union_contract :
+  forall (C : impl) RC DC, contract C true RC DC -> (forall c tau l, DC c tau l -> RC c l) ->
+  contract (union_impl C) true (R_u C RC) (D_u C RC).
+Proof. exact union_contract_current_source. Qed.
+
+(* `+a +(x y ...)`: Intersection [leaf; BufferedUnion of leaves] (boxed children), every valid program *)
+Theorem C13_intersection_over_union_all_programs :
+  forall a xs prog, wf_docs a -> Forall wf_docs xs -> valid_prog (sem_inter [a; sem_union xs]) prog ->
+  run (inter_impl (sum_impl vec_impl (union_impl vec_impl)))
+      (i_new (sum_impl vec_impl (union_impl vec_impl)) (inl (vec_of a)) (inr (u_build vec_impl (map vec_of xs))) [] false) prog
+  = spec_run (sem_inter [a; sem_union xs]) prog.
+Proof. exact inter_of_leaf_and_union_all_programs. Qed.
+
+(* Disjunction with minimum_should_match k >= 1 over ANY children meeting the contract: Disjunction::new represents
+   sem_disj k (members of at least k lists), and with the trait defaults it meets the strong contract (never dangles). *)
+Theorem C13_compositional_disjunction :
+  forall (C : impl) strong RC DC, contract C strong RC DC -> forall k, (1 <= k)%nat ->
+  (forall ds lcs, Forall2 RC ds lcs -> R_d C RC k (d_new C ds k) (sem_disj k lcs)) /\
+  contract (disj_impl C) true (R_d C RC k) (fun s _ l => R_d C RC k s l).
+Proof.
+  intros C strong RC DC CC k Hk. split.
+  - exact (disj_new_repr C strong RC DC CC k Hk).
+  - exact (disj_contract C strong RC DC CC k Hk).
+Qed.
+
+Theorem C13_disjunction_program_equivalence :
+  forall (C : impl) strong RC DC (k : nat), contract C strong RC DC -> (1 <= k)%nat ->
+  forall ds lcs prog, Forall2 RC ds lcs -> valid_prog (sem_disj k lcs) prog ->
+  run (disj_impl C) (d_new C ds k) prog = spec_run (sem_disj k lcs) prog.
+Proof. exact disj_program_equivalence. Qed.
+
+(* NEW witness (faithful; replayed on the implementation by harness/src/bin/repro_c13_union_over_intersection.rs):
+   with the seek_danger of the current source, a BufferedUnionScorer with an Intersection child, driven through
+   seek_danger by an enclosing Intersection, delivers a document that is in no child of the union.
+   `+a +((+x +y) z)`, a=[1;10000;10005] x=[1;9000;10005] y=[1;9000;50000;50001] z=[2;10000]: meaning [1;10000],
+   observed [1;10000;10005].  This is why C13_union_contract asks for children that never dangle. *)
+Theorem C13_union_over_dangling_child_refuted :
+  exists prog, valid_prog W_sem prog /\ run (inter_impl W_OC) W_outer prog <> spec_run W_sem prog.
+Proof. exact union_over_intersection_refuted. Qed.
+
+Print Assumptions C13_compositional_intersection.
+Print Assumptions C13_intersection_program_equivalence.
+Print Assumptions C13_intersection_nested_all_programs.
